@@ -184,8 +184,9 @@ def run(ctx):
         dist["by_kind"][kind] = dist["by_kind"].get(kind, 0) + 1
         if "error" in r:
             dist["perturbed_infeasible"] += 1
-            if exp in ("ge", "eq"):
-                ctx.violation(f"C12:{kind}-perturbation-makes-instance-fail",
+            if exp in ("ge", "eq") or exp.startswith("eq*"):
+                sw = "@seaweed-in-food-set" if (base_spec.get("add_sw") and kind in ("waste", "charge")) else ""
+                ctx.violation(f"C12:{kind}-perturbation-makes-instance-fail{sw}",
                               f"{kind} perturbation {label} of a solvable instance fails ({r['error']}) on {where}",
                               {"kind": "counterexample", "base": base_spec, "perturbed": spec, "where": where, "label": label})
             continue
